@@ -253,6 +253,58 @@ TASKS.append(FunctionTask(LOAD15, module_env={"open": FuncV(_m_open15, "open"), 
                                                "setattr": FuncV(_m_setattr, "setattr")},
                           clauses=["load assigns every stored entry"]))
 
+# ---------------------------------------------------------------- Settings.attr_dict on its executed body
+# An object with five listed attributes of the kinds settings carry - a number, an array, a dictionary holding an array and a number, None, a list - and one
+# attribute that is *not* listed.  The dictionary handed out has exactly the listed names in the listed order; numbers, None and lists as they are; arrays as
+# lists of the same values; the nested dictionary entry by entry; and nothing in it is storage of the object (deep copy at every level).
+from pyvc.core import ARef as _ARef, LRef as _LRef
+NB, NK = z3.Int("n_beta"), z3.Int("n_k1")
+BETA, K1 = z3.Const("beta_values", z3.ArraySort(z3.IntSort(), z3.RealSort())), z3.Const("k1_values", z3.ArraySort(z3.IntSort(), z3.RealSort()))
+_LISTED = ["alpha", "beta", "gamma", "delta", "eps"]
+
+
+def _attr_inputs(ex, st):
+    beta = ex.alloc_arr(st, (NB,), BETA, "real", "param:self.beta", tag="beta")
+    k1 = ex.alloc_arr(st, (NK,), K1, "real", "param:self.gamma.k1", tag="k1")
+    eps = ex.alloc_list(st, [z3.Real("eps0"), z3.Real("eps1")], owner="param:self.eps")
+    st.env["self"] = sym_obj(ex, st, "Settings", {"attrs": ex.alloc_list(st, [StrV(a) for a in _LISTED], owner="param:self.attrs"), "alpha": z3.Real("alpha"), "beta": beta,
+                                                  "gamma": DictV({"k1": k1, "k2": z3.Real("k2")}), "delta": NONE, "eps": eps, "unlisted": z3.Real("unlisted")}, owner="param:self")
+    st.env["__in"] = Tup((beta, k1, eps))
+    return [NB >= 0, NK >= 0]
+
+
+def _fresh_storage(ex, st, a, k, n_):
+    """every array / list reachable from the result is storage allocated by the call (none of the object's own)"""
+    own = {r.sid for r in st.env["__in"]}
+
+    def walk(v):
+        if isinstance(v, (_ARef, _LRef)):
+            d = st.heap[v.sid]
+            if v.sid in own or getattr(d, "owner", "fresh") != "fresh" or getattr(d, "view_of", None) in own:
+                return False
+            return all(walk(x) for x in d.items) if isinstance(v, _LRef) else True
+        if isinstance(v, DictV):
+            return all(walk(x) for x in v.items.values())
+        if isinstance(v, Tup):
+            return all(walk(x) for x in v)
+        return True
+    return z3.BoolVal(walk(a[0]))
+
+
+ATTR_DICT = Contract(
+    qual="hvsrpy.settings.Settings.attr_dict", params=["self"], make_inputs=_attr_inputs, is_property=True, modifies=[],
+    ghost={"keys_are": FuncV(lambda ex, st, a, k, n_: z3.BoolVal(isinstance(a[0], DictV) and list(a[0].items) == _LISTED), "keys_are"),
+           "fresh_storage": FuncV(_fresh_storage, "fresh_storage"), "BETA": lambda i: z3.Select(BETA, i), "K1": lambda i: z3.Select(K1, i), "NB": NB, "NK": NK,
+           "is_list": FuncV(lambda ex, st, a, k, n_: z3.BoolVal(isinstance(a[0], _LRef) or (isinstance(a[0], _ARef) and st.heap[a[0].sid].pylist)), "is_list"),
+           "is_dict": FuncV(lambda ex, st, a, k, n_: z3.BoolVal(isinstance(a[0], DictV) and list(a[0].items) == ["k1", "k2"]), "is_dict")},
+    ensures=["keys_are(result)", "result['alpha'] == self.alpha", "is_list(result['beta']) and len(result['beta']) == NB and forall(i, 0, NB, result['beta'][i] == BETA(i))",
+             "is_dict(result['gamma'])", "is_list(result['gamma']['k1']) and len(result['gamma']['k1']) == NK and forall(i, 0, NK, result['gamma']['k1'][i] == K1(i))", "result['gamma']['k2'] == self.gamma['k2']",
+             "result['delta'] is None", "is_list(result['eps']) and len(result['eps']) == 2 and result['eps'][0] == self.eps[0] and result['eps'][1] == self.eps[1]", "fresh_storage(result)"],
+    notes="exactly the listed attributes in the listed order (an attribute that is not listed is not handed out); arrays become lists of the same values, also inside a "
+          "dictionary; numbers, None and lists keep their value; no array or list of the result is storage of the object")
+TASKS.append(FunctionTask(ATTR_DICT, module_env={"deepcopy": _npm15.DEEPCOPY}, label="hvsrpy.settings.Settings.attr_dict[number, array, dict of array and number, None, list]",
+                          clauses=["the saved dictionary holds every listed attribute by content and shares no storage with the object"]))
+
 META = dict(
     level="other",
     explanation="structural obligations on the AST: every settings constructor assigns exactly the attributes it lists in attrs, stores every mutable "
